@@ -477,7 +477,49 @@ func vC04Lie(r *vRand, ob []byte) []byte {
 	if err != nil {
 		return ob
 	}
-	switch r.Intn(5) {
+	switch r.Intn(8) {
+	case 5:
+		// multi-vote: a forged root for the first chain repeated 2f+1 times, interleaved with the (honest) roots of the
+		// other chains so that no two copies are neighbours: [A', B, A', B, A'] (seeded change C04-6 / C01-1 family)
+		if rs := o.MerkleRootObs.MerkleRoots; len(rs) >= 1 {
+			forged := rs[0]
+			forged.MerkleRoot[0] ^= 0xFF
+			var out []cciptypes.MerkleRootChain
+			for k := 0; k < 3; k++ {
+				out = append(out, forged)
+				if len(rs) >= 2 {
+					out = append(out, rs[1+k%(len(rs)-1)])
+				}
+			}
+			o.MerkleRootObs.MerkleRoots = out
+		}
+	case 6:
+		// the same for off-ramp next numbers: a stale / advanced cursor voted three times, not adjacent
+		if ns := o.MerkleRootObs.OffRampNextSeqNums; len(ns) >= 1 {
+			forged := ns[0]
+			forged.SeqNum += cciptypes.SeqNum(1 + r.Intn(3))
+			var out []plugintypes.SeqNumChain
+			for k := 0; k < 3; k++ {
+				out = append(out, forged)
+				if len(ns) >= 2 {
+					out = append(out, ns[1+k%(len(ns)-1)])
+				}
+			}
+			o.MerkleRootObs.OffRampNextSeqNums = out
+		}
+	case 7:
+		if ns := o.MerkleRootObs.OnRampMaxSeqNums; len(ns) >= 1 {
+			forged := ns[0]
+			forged.SeqNum += 7
+			var out []plugintypes.SeqNumChain
+			for k := 0; k < 3; k++ {
+				out = append(out, forged)
+				if len(ns) >= 2 {
+					out = append(out, ns[1+k%(len(ns)-1)])
+				}
+			}
+			o.MerkleRootObs.OnRampMaxSeqNums = out
+		}
 	case 0:
 		for i := range o.MerkleRootObs.MerkleRoots {
 			o.MerkleRootObs.MerkleRoots[i].MerkleRoot[0] ^= 0xFF
